@@ -43,7 +43,18 @@ impl Typstyle {
         // Infer indent from context.
         // The indentation is that of the node that gets replaced, not of the requested range,
         // which may start further down and deeper inside the node.
-        let indent = utils::count_spaces_after_last_newline(source.text(), node.range().start);
+        let mut indent =
+            utils::count_spaces_after_last_newline(source.text(), node.range().start);
+        // The body of a list, enum or term item is nested one unit deeper than the item's line:
+        // its continuation lines must stay to the right of the marker.
+        if node.kind() == SyntaxKind::Markup
+            && matches!(
+                node.parent_kind(),
+                Some(SyntaxKind::ListItem | SyntaxKind::EnumItem | SyntaxKind::TermItem)
+            )
+        {
+            indent += self.config.tab_spaces;
+        }
         let res = doc
             .nest(indent as isize)
             .pretty(self.config.max_width)
